@@ -4,6 +4,10 @@ import json
 props=[json.loads(l) for l in open('properties.jsonl')]
 TRUST="Trusted base: the Go type checker/SSA builder of x/tools v0.29.0; the std functions on the allow-lists behave as documented; exported operations receive values produced by the repo's constructors."
 claimed={
+'C12':dict(technique="static analysis: abstract position table of maven's Compare (AE) against ComparableVersion's item rules; tabulation of the normaliser and the null predicate; structural rules on tokenizer and trimming",
+ text="Decided: every abstract position world of Compare's zip loop agrees with the item rules of the statement (numbers by value; a number above every qualifier; alpha<beta<milestone<rc<snapshot<release<sp<other qualifiers alphabetically; a missing item compared as 0 / as the release qualifier) and Compare is nothing but that loop; the normaliser looks up the lower-cased token with exactly the alias table a/b/m/cr/ga/final/release and every stored element passes through it; trailing null items (number 0, release qualifier) are trimmed by a loop applied once to the complete list. Structural necessary condition for the '.'/'-' clause: the tokenizer must run different code for the two separators - it does not: known finding.",
+ note=TRUST+" Oracle: the rules of the property statement, not Maven's class. Not decided: tokenisation at digit/letter transitions; the 'aliases only when followed by a digit' clause (bare single-letter aliases are not claimed); nested-list semantics beyond the structural separator clause.",
+ design="DESIGN.md 5 (C12)"),
 'C14':dict(technique="static analysis: abstract position tables of alpine's numeric and suffix-list comparators and stage-order queries on Compare's decision table (AE), against the ranking in the property statement",
  text="Decided on the abstract decision tables: Compare consults numeric components, then the letter (none first, then alphabetical), then the suffix list, then -rN, each deciding whatever the later parts are; every abstract position world of the suffix-list comparator agrees with alpha<beta<pre<rc<(none)<cvs<svn<git<hg<p, then the suffix number, and an additional suffix makes its version older (pre-release) or newer (post-release); the comparator's result is exactly the position-wise loop's (no fast path or post-adjustment); numeric components without leading zeros compare by integer value at the first and at later positions.",
  note=TRUST+" Oracle: the ranking and rules of the property statement, not apk-tools. Not decided: differing component counts, leading-zero components, ~hash parts (not claimed by the property); suffix names outside the nine known ones; that numericComponent.value is the integer of the component text (R-NUMPARSE of C03 covers the parse).",
